@@ -6,7 +6,7 @@ namespace Verif.Driver.C06
 open Verif Verif.Driver Verif.Model.Xml
 open Verif.Xml (XTok)
 
-/-- one token = group `[kind, Data, Text, AttrVal]`, kind = decimal `xml.TokenType` of the dependency -/
+/-- one token = group `[kind, Data, Text, AttrVal]`, kind = decimal `xml.TokenType` of the dependency (12 = attribute token whose AttrVal is nil) -/
 def decodeTok (g : List Bytes) : Except String XTok :=
   match g with
   | [kind, data, text, av] =>
@@ -25,6 +25,7 @@ def decodeTok (g : List Bytes) : Except String XTok :=
     | some 9 => .ok (.endTag d t)
     | some 10 => .ok (.attr t v)
     | some 11 => .ok (.text d)
+    | some 12 => .ok (.attrBare d t)
     | _ => .error "bad token kind"
   | _ => .error "bad token group"
 
